@@ -618,6 +618,9 @@ void csr_matmat_pass2(const CSRMatrix &A, const CSRMatrix &B, CSRMatrix &C)
 
         C.p_[i + 1] = nnz;
     }
+
+    // the linked list yields each row in reverse first-touch order
+    CSRMatrix::csr_sort_indices(C.p_, C.j_, C.x_, A.row_);
 }
 
 // Extract main diagonal of CSR matrix A
